@@ -78,6 +78,7 @@ func HarnessC13ScenarioRequests() {
 	// sleeps attach to the last expanded copy... every copy of name(n, sleep) carries its own sleep
 	for i := range want {
 		vCheck("X3.order.kept", res.Requests[i].Name == want[i].name)
+		vCheck("X3.pause.of.each.copy", res.Requests[i].Sleep == time.Duration(want[i].sleep)*time.Millisecond)
 	}
 	vObserve("len", int64(len(want)))
 	vReach("end")
